@@ -9,15 +9,67 @@ from harness.core import Outcome, f2b, b2f
 
 ID = "C09"
 LEAN_TARGETS = ["BeyondVerif.Props.C09", "BeyondVerif.Witness.C09"]
-THEOREMS = []
-LEVEL_TEXT = ""
-LEVEL_NOTE = ""
-TECHNIQUE = ""
-TRUSTED = []
-ASSUMPTIONS = []
-NOT_COVERED = []
-OPEN = []
-RULE = ""
+THEOREMS = [
+    "BeyondVerif.C09.prevIdx_total",
+    "BeyondVerif.C09.prevIdx_spec",
+    "BeyondVerif.C09.prevIdx_bracket",
+    "BeyondVerif.C09.window_spec",
+    "BeyondVerif.C09.interp_lagrange_window",
+    "BeyondVerif.C09.lagrangeCol_eq_eval_interpolate",
+    "BeyondVerif.C09.interp_lagrange_reproduces_poly",
+    "BeyondVerif.C09.interp_lagrange_node_exact",
+    "BeyondVerif.C09.interp_linear_eq",
+    "BeyondVerif.C09.interp_linear_node_exact",
+    "BeyondVerif.C09.interp_linear_reproduces_pwl",
+    "BeyondVerif.C09.outside_rejected",
+    "BeyondVerif.C09.outside_value_error",
+    "BeyondVerif.C09.too_short_rejected",
+    "BeyondVerif.C09.too_short_value_error",
+    "BeyondVerif.C09.result_keeps_frame_form",
+    "BeyondVerif.C09.result_keeps_frame_form_after_convert",
+    "BeyondVerif.C09.interpolate_uses_current_coordinates_partial",
+    "BeyondVerif.C09W.stale_cache_ignores_conversion",
+    "BeyondVerif.C09W.stale_cache_wrong_coordinates",
+]
+LEVEL_TEXT = ("Lean theorems over R about a model of Interp (_prev_idx slicing search, the start/stop window arithmetic translated from interp.py on every run, "
+              "Python slicing, the Lagrange and linear formulas) and of Ephem.interpolate: for every strictly increasing table, every order >= 2 (even and odd), "
+              "every length >= order and every abscissa of [first, last] the call returns the Lagrange interpolant on `order` consecutive rows containing the "
+              "bracketing interval (both end intervals included); that value is Mathlib's Lagrange.interpolate, hence exact at nodes and exact on polynomials of "
+              "degree < order; linear interpolation is exact at nodes and on piecewise-linear data; abscissae outside and tables shorter than the order give an "
+              "error, never a value; the result carries the form/frame of the ephemeris and the requested date. Model tied to the real classes by an exact / "
+              "1e-10 differential correspondence (prev_idx, window recovered from one-hot ordinates, whole calls, Ephem sequences).")
+LEVEL_NOTE = ("R -> double gap covered only by the correspondence; 'within centimetres on a smooth orbit' is checked by the oracle only; the clause 'coordinates "
+              "agree with the labelled frame/form' is false of the code after a frame/form change of an already interpolated ephemeris (open finding, "
+              "kernel-checked witness); Lean kernel + propext/Classical.choice/Quot.sound; py2lean translator and harness trusted")
+TECHNIQUE = ("Lean 4 proof (induction over the binary search, omega on the window arithmetic regenerated from the Python AST, Mathlib Lagrange.interpolate / "
+             "eq_interpolate) + exact differential correspondence of the executable model with Interp / Ephem")
+TRUSTED = [
+    "harness/py2lean.py + harness/props/C09.py:window_source: translate the start/stop statements of Interp._lagrange (and Ephem.DEFAULT_ORDER) into Generated/InterpWin{F,R}.lean on every run",
+    "lean/templates/Interp.tpl (hand-written: _prev_idx, Python slice semantics, Lagrange / linear formulas, __call__ / __init__ checks, Ephem state with cached ordinates), tied by the correspondence run",
+    "numpy double arithmetic vs R: linear values compared bit for bit, Lagrange values to 1e-10 of sum_j |l_j y_j| (BLAS summation order)",
+]
+ASSUMPTIONS = [
+    "theorems are over R; the implementation computes in IEEE doubles (Lagrange at a node is bit-exact in doubles too — checked by the oracle; linear at a node is exact only up to rounding)",
+    "abscissae strictly increasing (Interp.__init__ enforces it; Ephem sorts its points and two points with equal dates make every interpolation raise ValueError)",
+    "order >= 1 in the correspondence (order 0 or negative is not modelled); the property quantifies over orders 2..12, the theorems over every order >= 2",
+    "dates are compared through Date._mjd (a double, 0.6 us resolution at today's MJD): query dates closer than that to a table end are not distinguished from it",
+]
+NOT_COVERED = [
+    "'for a smooth orbit sampled at a step well below its period the interpolated position is within centimetres': an approximation bound for a class of functions; oracle only "
+    "(Keplerian orbits e <= 0.05, step = period/100..200, orders 7..10, uniform and jittered: <= 5 cm at every position incl. first/last interval)",
+    "coordinates consistent with the labelled frame/form after `ephem.frame = ...` / `ephem.form = ...` on an ephemeris interpolated before: false of the current code "
+    "(known findings C09-stale-interpolator-after-{frame,form}-set; Witness/C09.lean)",
+]
+OPEN = [
+    "the Lagrange formula itself (tile/repeat/mask/prod/@ in numpy) is hand-modelled in the template and tied by correspondence only, not translated from the AST",
+]
+RULE = ("correspondence: random tables (length 1..40, order none/1..12, uniform / jittered / MJD abscissae, 1-D and 2-D ordinates, non-increasing and length-mismatched variants), "
+        "abscissae at nodes, inside every kind of interval (first, last, interior, one ulp from a node), one ulp outside, far outside, NaN: Interp._prev_idx exact; "
+        "window recovered from the real code by interpolating one-hot ordinates, exact; whole calls (error kind exact, linear bit-exact, Lagrange rtol 1e-10); "
+        "Ephem objects (shuffled construction, default method/order, heterogeneous labels, interpolate / set form or frame / interpolate sequences) vs the Lean model; "
+        "non-trivial = the call returns a value; distinct = distinct request line. "
+        "oracle: node exactness, polynomial reproduction (1e-7), piecewise-linear reproduction, refusal outside / too short, labels, stale-cache scenario, "
+        "cm accuracy on Keplerian orbits, all on the real API")
 
 INTERP_PY = os.path.join(core.REPO, "beyond", "utils", "interp.py")
 EPHEM_PY = os.path.join(core.REPO, "beyond", "orbits", "ephem.py")
